@@ -363,3 +363,87 @@ func (d *Dialer) AddTLS(conn network.Conn, tlsConfig *tls.Config) (network.Conn,
 
 // DialCount returns the number of dials so far.
 func (d *Dialer) DialCount() int { d.mu.Lock(); defer d.mu.Unlock(); return d.Dials }
+
+// ---------------------------------------------------------------------------
+
+// Reactive is a net.Conn for the client direction: the i-th scripted response
+// becomes readable only after the client has written i complete requests
+// (decided by the CountRequests callback over everything written so far).
+type Reactive struct {
+	mu        sync.Mutex
+	written   bytes.Buffer
+	responses [][][]byte // per response: fragments
+	ri, fi    int
+	off       int
+	closed    int32
+	End       End
+	// CountRequests returns how many complete requests b contains.
+	CountRequests func(b []byte) int
+	// Served counts responses fully delivered.
+	Served int
+}
+
+// NewReactive builds the connection; responses[i] is the list of fragments of the i-th response.
+func NewReactive(responses [][][]byte, count func(b []byte) int, end End) *Reactive {
+	return &Reactive{responses: responses, CountRequests: count, End: end}
+}
+
+func (c *Reactive) Read(p []byte) (int, error) {
+	c.mu.Lock()
+	defer c.mu.Unlock()
+	if atomic.LoadInt32(&c.closed) != 0 {
+		return 0, net.ErrClosed
+	}
+	if len(p) == 0 {
+		return 0, nil
+	}
+	for c.ri < len(c.responses) && c.fi >= len(c.responses[c.ri]) {
+		c.ri++
+		c.fi = 0
+		c.off = 0
+		c.Served++
+	}
+	avail := c.CountRequests(c.written.Bytes())
+	if c.ri >= len(c.responses) || c.ri >= avail {
+		switch c.End {
+		case Timeout:
+			return 0, &net.OpError{Op: "read", Net: "tcp", Err: os.ErrDeadlineExceeded}
+		case Reset:
+			return 0, &net.OpError{Op: "read", Net: "tcp", Err: syscall.ECONNRESET}
+		}
+		return 0, io.EOF
+	}
+	f := c.responses[c.ri][c.fi][c.off:]
+	n := copy(p, f)
+	c.off += n
+	if c.off == len(c.responses[c.ri][c.fi]) {
+		c.fi++
+		c.off = 0
+	}
+	return n, nil
+}
+
+func (c *Reactive) Write(p []byte) (int, error) {
+	c.mu.Lock()
+	defer c.mu.Unlock()
+	if atomic.LoadInt32(&c.closed) != 0 {
+		return 0, net.ErrClosed
+	}
+	c.written.Write(p)
+	return len(p), nil
+}
+
+// Written returns everything the client wrote.
+func (c *Reactive) Written() []byte {
+	c.mu.Lock()
+	defer c.mu.Unlock()
+	return append([]byte(nil), c.written.Bytes()...)
+}
+
+func (c *Reactive) Close() error                       { atomic.StoreInt32(&c.closed, 1); return nil }
+func (c *Reactive) Closed() bool                       { return atomic.LoadInt32(&c.closed) != 0 }
+func (c *Reactive) LocalAddr() net.Addr                { return addr("127.0.0.1:40000") }
+func (c *Reactive) RemoteAddr() net.Addr               { return addr("127.0.0.1:80") }
+func (c *Reactive) SetDeadline(t time.Time) error      { return nil }
+func (c *Reactive) SetReadDeadline(t time.Time) error  { return nil }
+func (c *Reactive) SetWriteDeadline(t time.Time) error { return nil }
